@@ -199,6 +199,17 @@ def tweak(rng, row, w, case):
         if row.name.startswith('SRS') and f.get('m') in gen.MODE_NAME:
             k = gen.bank_key(13, gen.MODE_NAME[f['m']])
         st_[k] = gen.DATA[0] + 4 * rng.randrange(2, 0x3E)
+    else:
+        k = gen.bank_key(f['n'], mode) if f['n'] <= 14 else None
+    if k and 'drsrs[11]' in st_ and rng.random() < 0.2:
+        # the smallest region there is (4 bytes) with a restrictive AP on one word of the transfer: the second word of a doubleword access, one slot
+        # of a multiple transfer - every word is checked on its own
+        st_['drsrs[11]'] = (1 << 1) | 1
+        st_['drbars[11]'] = ((st_[k] & ~7) + 4 * rng.randrange(-2, 6)) & 0xFFFFFFFC
+        st_['dracrs[11]'] = rng.choice((0, 1, 2, 5, 6)) << 8
+        st_['mpuir'] = 12 << 8
+        if row.name.startswith(('LDRD', 'STRD')) and rng.random() < 0.7:
+            st_[k] &= ~7
 
 
 def classify(res, case):
@@ -216,7 +227,19 @@ def nontrivial(res):
     return res.status == 'abort' or e1prop.default_nontrivial(res)
 
 
-from vf.props.c03 import shape_list  # noqa: E402
+from vf.props.c03 import shape_list as _shape_list  # noqa: E402
+
+
+def shape_list(row, w, entropy):
+    """register lists as in C03; doubleword immediates mostly small so that the one-word regions placed next to the base fall inside the access"""
+    w = _shape_list(row, w, entropy)
+    if row.name.startswith(('LDRD_imm', 'STRD_imm')) and 'i' in row.fields and (entropy >> 7) % 3:
+        v = (0, 4, 8, 0)[(entropy >> 9) & 3]
+        for j, p_ in enumerate(reversed(row.fields['i'])):
+            w = (w & ~(1 << p_)) | (((v >> j) & 1) << p_)
+    return w
+
+
 PLAN = e1prop.Plan('C14', ROWS, cfgs=('v6', 'v7', 'v6-nosec'), classify=classify, nontrivial=nontrivial, tweak_case=tweak, tweak_word=shape_list,
                    case_kw=lambda rng, row: {'mpu': True, 'e': rng.choice((0, 0, 1)), 'code_base': 0x8000,
                                              'mode': rng.choice(('usr', 'usr', 'svc', 'irq', 'sys', 'abt'))})
